@@ -86,7 +86,13 @@ def run(prop=None, only=None, verbose=False):
             keys = run_props(props, ff)
             new = {p: [k for k in keys[p] if k not in base[p]] for p in props}
             flat = [k for p in props for k in new[p] if p in o["props"]]
-            if o["kind"] == "fire":
+            if o["kind"] == "gone":
+                still = [k for p in props for k in keys[p] if o["expect"] in k and p in o["props"]]
+                other = [k for k in flat]
+                st = "repaired-silent" if not still and not other else ("STILL-REPORTED" if still else "FALSE-ALARM")
+                results.append({"id": o["id"], "kind": "gone", "status": st, "expect_gone": o["expect"], "reported": (still + other)[:6],
+                                "what": o.get("what", "")})
+            elif o["kind"] == "fire":
                 hit = [k for k in flat if o["expect"] in k]
                 st = "fired" if hit else "MISSED"
                 results.append({"id": o["id"], "kind": "fire", "status": st, "expect": o["expect"], "reported": flat[:6],
@@ -104,8 +110,8 @@ def run(prop=None, only=None, verbose=False):
         "operators": len(sel),
         "fired": sum(1 for r in results if r["status"] == "fired"),
         "missed": [r["id"] for r in results if r["status"] == "MISSED"],
-        "silent": sum(1 for r in results if r["status"] == "silent"),
-        "false_alarms": [r["id"] for r in results if r["status"] == "FALSE-ALARM"],
+        "silent": sum(1 for r in results if r["status"] in ("silent", "repaired-silent")),
+        "false_alarms": [r["id"] for r in results if r["status"] in ("FALSE-ALARM", "STILL-REPORTED")],
         "skipped": [r["id"] for r in results if r["status"] in ("skipped", "does-not-compile")],
         "results": results,
     }
@@ -118,5 +124,5 @@ if __name__ == "__main__":
     s = run(prop, only, verbose=True)
     print(json.dumps({k: v for k, v in s.items() if k != "results"}, indent=1))
     for r in s.get("results", []):
-        if r["status"] in ("MISSED", "FALSE-ALARM", "does-not-compile", "skipped"):
+        if r["status"] in ("MISSED", "FALSE-ALARM", "STILL-REPORTED", "does-not-compile", "skipped"):
             print(json.dumps(r, ensure_ascii=False))
